@@ -35,6 +35,7 @@ def build(tier="quick", seed=0):
     fixed_parameters(b)
     strength_cache(b)
     notification(b)
+    cascade(b)
     b.replayer("*::ensures:love_numbers_current*", _replay_fixed_q)
     b.replayer("*::invariant:compliance_is_reciprocal_shear*", _replay_strength)
     b.replayer("*::ensures:orbit_is_told*", _replay_strength)
@@ -374,6 +375,95 @@ def notification(b):
             continue
         ground(b, f"{mfn.key}::ensures:orbit_is_told[{role}]", mfn.key, "ensures (world has an orbit) orbit.dissipation_changed(self) is called: the orbit's derivatives are refreshed for a change of this world's dissipation",
                len(told) == 1 and len(told[0]) == 1 and told[0][0] is w, detail=f"calls: {len(told)}", refuted_model=None if len(told) == 1 else dict(role=role, calls=len(told)))
+
+
+def cascade(b):
+    """the change-flag cascade of the statement (temperature -> viscosity / melt -> strength -> complex compliances -> world -> tides; tidal frequencies ->
+    layers -> rheology -> compliances -> world -> tides): every link, executed from the real source on an object with recording stubs for its
+    neighbours, calls the next link - in the order the data flow needs, with the collapse flag forwarded unchanged.  (A dropped or re-ordered link
+    leaves every later object with values of the previous state.)"""
+    FRH, FLP, FLB, FWL = "TidalPy/rheology/rheology.py", "TidalPy/structures/layers/physics.py", "TidalPy/structures/layers/basic.py", "TidalPy/structures/world_types/layered.py"
+    flag = R("collapse_flag_token")
+
+    def spy(rec, name, ret=None):
+        def f(ex, node_, *a_, **k_):
+            rec.append((name, tuple(a_), dict(k_)))
+            return ret
+        return f
+
+    def run(cls, method, mk, args, label, expect, clause):
+        c, node = cls.lookup("methods", method)
+        key0 = f"{cls.relpath}::{cls.name}.{method}"
+        if node is None:
+            b.subset_exits.append(f"{key0}: method not found")
+            return
+        mfn = MethodFn(c, node)
+        b.functions[mfn.key] = mfn.info()
+        rec = []
+        o = mk(rec)
+        ex = Exec(mfn, globals_env={}, contracts={}, opts=dict(definedness=False))
+        try:
+            paths = ex.run(dict(args, self=o))
+        except SymExError as e:
+            b.subset_exits.append(f"{mfn.key} [{label}]: {e}")
+            return
+        if len(paths) != 1 or paths[0].outcome != "return":
+            b.subset_exits.append(f"{mfn.key} [{label}]: {[p_.outcome for p_ in paths]}")
+            return
+        got = [(n_, a_, k_) for n_, a_, k_ in rec]
+        ok = len(got) == len(expect) and all(g_[0] == e_[0] and (e_[1] is None or (list(g_[1]) + [g_[2].get("collapse_tidal_modes", True)])[0:1] == [e_[1]]) for g_, e_ in zip(got, expect))
+        ground(b, f"{mfn.key}::ensures:next_link[{label}]", mfn.key, clause, ok, detail=f"calls: {[(g_[0], g_[1], g_[2]) for g_ in got]}; expected {expect}",
+               refuted_model=None if ok else dict(calls=str([g_[0] for g_ in got]), expected=str([e_[0] for e_ in expect])))
+
+    try:
+        rheo = ClassModel("Rheology", FRH)
+        layer_base = ClassModel("LayerBase", FLB, bases=[ClassModel("PhysicalObjSpherical", FPH)])
+        layer = ClassModel("PhysicsLayer", FLP, bases=[layer_base])
+        base = ClassModel("BaseWorld", FWB, bases=[ClassModel("PhysicalObjSpherical", FPH)])
+        tidal = ClassModel("TidalWorld", FWT, bases=[base])
+        layered = ClassModel("LayeredWorld", FWL, bases=[tidal])
+    except ExtractError as e:
+        b.subset_exits.append(str(e))
+        return
+
+    def mk_rheo(rec, **over):
+        lay = Obj(None, temperature=R("T_layer"), is_tidal=True, complex_compliances_changed=spy(rec, "layer.complex_compliances_changed"), name="layer")
+        at = dict(layer=lay, viscosity=R("eta"), shear_modulus=R("mu"), unique_tidal_frequencies=R("freqs"), complex_compliances=R("J"),
+                  viscosity_model=Obj(None, calculate=spy(rec, "viscosity_model.calculate")), liquid_viscosity_model=Obj(None, calculate=spy(rec, "liquid_viscosity_model.calculate")),
+                  partial_melting_model=Obj(None, calculate=spy(rec, "partial_melting_model.calculate")), complex_compliance_model=Obj(None, calculate=spy(rec, "complex_compliance_model.calculate")),
+                  strength_changed=spy(rec, "self.strength_changed"), complex_compliances_changed=spy(rec, "self.complex_compliances_changed"))
+        at.update(over)
+        return Obj(rheo, **at)
+    run(rheo, "temperature_pressure_changed", lambda rec: mk_rheo(rec), {}, "all models",
+        [("viscosity_model.calculate", None), ("liquid_viscosity_model.calculate", None), ("partial_melting_model.calculate", None), ("self.strength_changed", None)],
+        "ensures (layer has a temperature) solid and liquid viscosities are recalculated, THEN the partial melt (which reads them), THEN strength_changed()")
+    run(rheo, "strength_changed", lambda rec: mk_rheo(rec), {}, "strength set",
+        [("complex_compliance_model.calculate", None), ("self.complex_compliances_changed", None)],
+        "ensures (viscosity and shear modulus set) the complex compliances are recalculated, THEN complex_compliances_changed()")
+    for fl in (True, False):
+        run(rheo, "tidal_frequencies_changed", lambda rec: mk_rheo(rec), dict(collapse_tidal_modes=fl), f"collapse={int(fl)}",
+            [("complex_compliance_model.calculate", None), ("self.complex_compliances_changed", fl)],
+            "ensures (tidal layer with frequencies) compliances are recalculated, THEN complex_compliances_changed(collapse_tidal_modes=<the caller's flag>)")
+        run(rheo, "complex_compliances_changed", lambda rec: mk_rheo(rec), dict(collapse_tidal_modes=fl), f"collapse={int(fl)}",
+            [("layer.complex_compliances_changed", fl)], "ensures (compliances set) the layer is told, with the caller's collapse flag")
+
+    def mk_layer(rec):
+        rh = Obj(None, temperature_pressure_changed=spy(rec, "rheology.temperature_pressure_changed"), strength_changed=spy(rec, "rheology.strength_changed"),
+                 tidal_frequencies_changed=spy(rec, "rheology.tidal_frequencies_changed"))
+        wd = Obj(None, complex_compliances_changed=spy(rec, "world.complex_compliances_changed"), name="world")
+        return Obj(layer, rheology=rh, world=wd, name="layer")
+    run(layer, "temperature_pressure_changed", mk_layer, {}, "layer", [("rheology.temperature_pressure_changed", None)], "ensures the layer's rheology is told that temperature / pressure changed")
+    run(layer, "strength_changed", mk_layer, {}, "layer", [("rheology.strength_changed", None)], "ensures the layer's rheology is told that the strength changed")
+    for fl in (True, False):
+        run(layer, "tidal_frequencies_changed", mk_layer, dict(collapse_tidal_modes=fl), f"collapse={int(fl)}", [("rheology.tidal_frequencies_changed", fl)],
+            "ensures the layer's rheology is told that the tidal frequencies changed, with the caller's collapse flag")
+        run(layer, "complex_compliances_changed", mk_layer, dict(collapse_tidal_modes=fl), f"collapse={int(fl)}", [("world.complex_compliances_changed", fl)],
+            "ensures the world is told that a layer's complex compliances changed, with the caller's collapse flag")
+
+        def mk_world(rec):
+            return Obj(layered, tides=Obj(None, complex_compliances_changed=spy(rec, "tides.complex_compliances_changed")), name="world")
+        run(layered, "complex_compliances_changed", mk_world, dict(collapse_tidal_modes=fl), f"collapse={int(fl)}", [("tides.complex_compliances_changed", fl)],
+            "ensures (world has a tides model) the tides model is told that complex compliances changed, with the caller's collapse flag")
 
 
 def layered_sums(b):
